@@ -332,7 +332,11 @@ class USBInTransferManager(Elaboratable):
                     m.next = "WAIT_FOR_DATA"
 
                 # If the host does ACK...
-                with m.Elif(self.handshakes_in.ack):
+                # Host handshakes are broadcast to every endpoint; only an ACK that follows an IN token
+                # addressed to this endpoint acknowledges our packet. (A token for another device clears
+                # the tokenizer's PID without strobing `new_token`, so without this gate the ACK of
+                # another device's transaction would discard a packet the host never received.)
+                with m.Elif(self.handshakes_in.ack & self.active & self.tokenizer.is_in):
                     # ... clear the data we've sent from our buffer.
                     m.d.usb += read_fill_count.eq(0)
 
